@@ -442,6 +442,15 @@ def handle (toks : List String) : String :=
         (List.range nc).map fun c => Slices.outCoord p sg [nc, nr, ns] [c, r, s]
       ",".intercalate (coords.map fun o => ".".intercalate (o.map toString))
     | _, _, _ => "bad-request"
+  | ["slices-chunks", code, size, chunk] =>
+    -- every write_chunk call of one slice conversion: box and the input pixel stored at each position
+    match parseList parseNat size, parseList parseNat chunk, Slices.perm code.toList, Slices.inv code.toList with
+    | some sz, some cs, some p, some sg =>
+      if !Slices.validCode code.toList || sz.length != 3 || cs.length != 3 then "invalid" else
+      ";".intercalate ((Slices.stackChunks p sg sz cs).map fun ch =>
+        ".".intercalate (ch.box.map fun (a, b) => s!"{a}-{b}") ++ ":" ++
+        ",".intercalate (ch.pix.map fun px => ".".intercalate (px.map toString)))
+    | _, _, _, _ => "bad-request"
   | ["http", op, code, bodylen, want] =>
     -- code = 0 means transport failure; body is `bodylen` zero bytes (only its length matters)
     match parseNat code, parseNat bodylen, parseNat want with
